@@ -64,10 +64,11 @@ def main():
         sh("mkdir -p %s/rust/tests && cp %s %s/rust/tests/%s.rs" % (repo_wt, demo, repo_wt, name))
         rc1, out1 = sh("cargo test --offline --test %s 2>&1 | tail -15" % name, cwd=repo_wt + "/rust")
         bad = "test result: FAILED" in out1 or "panicked" in out1
-        sh("git stash -q", cwd=repo_wt)
+        # put the patched state aside in a file private to this slot (git stash is shared by all worktrees of a repo)
+        sh("git diff > /tmp/eval-slot%s.state && git checkout -q -- ." % slot, cwd=repo_wt)
         rc2, out2 = sh("cargo test --offline --test %s 2>&1 | tail -15" % name, cwd=repo_wt + "/rust")
         good = "test result: ok" in out2
-        sh("git stash pop -q", cwd=repo_wt)
+        sh("git apply --whitespace=nowarn /tmp/eval-slot%s.state" % slot, cwd=repo_wt)
         sh("rm -f %s/rust/tests/%s.rs" % (repo_wt, name))
         res["demo"] = {"fails_with_patch": bad, "passes_without": good,
                        "with_tail": out1[-400:] if not bad else "", "without_tail": out2[-400:] if not good else ""}
@@ -76,6 +77,7 @@ def main():
         sh("git -C /verif worktree add --detach %s HEAD" % verif_wt)
     sh("git checkout -q -- . ; git checkout -q --detach %s" % os.environ.get("EVAL_VERIF_REV", "$(git -C /verif rev-parse HEAD)"), cwd=verif_wt)
     sh("ln -sfn %s %s/repo" % (repo_wt, verif_wt))
+    res["patched_tree_diffstat"] = sh("git diff --stat | tail -1", cwd=repo_wt)[1].strip()
     res["verif_head"] = sh("git rev-parse --short HEAD", cwd=verif_wt)[1].strip()
     res.setdefault("checks", {})
     for pid in ([] if "--skip-checks" in a else props):
